@@ -136,8 +136,8 @@ Proof.
   pose proof (absorb_frame (length lit) l) as [[Fi _] Fs]. pose proof (emit_frame t (absorb (length lit) l)) as [[Ei _] Es].
   assert (Ps : pos (absorb (length lit) l) = start l + length (pre l) + length lit).
   { unfold pos. rewrite Fs, P1, app_length, rev_length. lia. }
-  rewrite Ps in I2. split; [eexists; exact I2|]. split; [reflexivity|]. split; [exact S1|]. split; [|congruence].
-  subst l'. rewrite Es, Fs, P1, app_length, rev_length. lia.
+  rewrite Ps in I2. subst l'. split; [eexists; exact I2|]. split; [reflexivity|]. split; [exact S1|]. split; [|congruence].
+  rewrite Es, Fs, P1, app_length, rev_length. lia.
 Qed.
 
 (* skipWhitespace after something that left pre empty *)
@@ -165,12 +165,855 @@ Lemma next_backup l d e g : Inv l d e g ->
   (exists bs, suf l = bs ++ suf l1 /\ pre l1 = rev bs ++ pre l /\ length bs = snd (decode (suf l))).
 Proof.
   intros HI l1. destruct (next_spec l) as (bs & N). pose proof (next_inv l d e g HI) as HI1. fold l1 in N, HI1.
-  destruct N. destruct (backup_inv l1 d e g bs (pre l) HI1 nr_pre0 nr_len0 nr_hi0) as (HI2 & P2 & S2 & W2 & O2).
+  destruct N as [Ndec Nsuf Npre Nlen Nnl Nhi Nline Ninp Nstart Nsline Nfl Nout].
+  destruct (backup_inv l1 d e g bs (pre l) HI1 Npre Nlen Nhi) as (HI2 & P2 & S2 & W2 & O2).
   pose proof (backup_frame l1) as [[Bi _] Bs].
-  split; [exact HI1|]. split; [exact HI2|]. split; [exact P2|]. split; [rewrite S2, <- nr_suf0; reflexivity|].
-  split; [congruence|]. split; [split; [congruence|lia]|]. split; [lia|]. split; [exact nr_out0|]. split; [exact nr_start0|]. split; [exact nr_inp0|].
-  exists bs. rewrite nr_dec0. cbn. auto.
+  split; [exact HI1|]. split; [exact HI2|]. split; [exact P2|]. split; [rewrite S2, <- Nsuf; reflexivity|].
+  split; [congruence|]. split; [split; [congruence|lia]|]. split; [lia|]. split; [exact Nout|]. split; [exact Nstart|]. split; [exact Ninp|].
+  exists bs. rewrite Ndec. cbn. auto.
 Qed.
 
 Lemma next_fst l : fst (next l) = fst (decode (suf l)).
 Proof. unfold next. destruct (decode (suf l)) as [r w]. destruct (fwd w (pre l) (suf l)). reflexivity. Qed.
+
+(* ---------- the state functions ---------- *)
+Lemma mk_step s l s' l' : frame l l' ->
+  (consuming s = true -> s' <> SDone -> s' <> SUnexpected -> start l < start l') ->
+  match s' with SDone => Final l' | _ => exists d e g, Inv l' d e g /\ Pre s' l' end ->
+  StepOK s l (s', l').
+Proof. intros F S G. split; [split; assumption|exact S]. Qed.
+
+Lemma absorb_emit_skip t lit l d e g :
+  Inv l d e g -> has_prefix lit (suf l) = true -> nl lit = 0 -> lit <> [] -> t <> ERROR -> t <> EOF ->
+  let l' := skipWhitespace (emit t (absorb (length lit) l)) in
+  exists d' e' g', Inv l' d' e' g' /\ pre l' = [] /\ frame l l' /\ start l < start l' /\
+                   is_space (fst (decode (suf l'))) = false.
+Proof.
+  intros HI HP Hnl Hne Ht1 Ht2 l'.
+  destruct (absorb_emit t lit l d e g HI HP Hnl Ht1 Ht2) as ((d1 & I1) & P1 & S1 & St1 & In1).
+  destruct (skipWhitespace_ok _ _ _ _ I1 P1) as ((d2 & g2 & I2) & P2 & O2 & [Fi Fs] & Sp).
+  exists d2, (start l + length (pre l) + length lit), g2. split; [exact I2|]. split; [exact P2|]. subst l'.
+  assert (length lit > 0) by (destruct lit; [congruence|cbn; lia]).
+  split; [split; [congruence|lia]|]. split; [lia|exact Sp].
+Qed.
+
+Lemma ww_pre l w : pre (with_width l w) = pre l. Proof. reflexivity. Qed.
+Lemma ww_suf l w : suf (with_width l w) = suf l. Proof. reflexivity. Qed.
+Lemma ww_start l w : start (with_width l w) = start l. Proof. reflexivity. Qed.
+Lemma ww_inp l w : inp (with_width l w) = inp l. Proof. reflexivity. Qed.
+
+Lemma prefix_of_rune l c : fst (decode (suf l)) = c -> (c < 128)%N -> has_prefix [c] (suf l) = true.
+Proof. intros E H. destruct (decode_ascii _ _ E H) as (t & -> & _). apply has_prefix_cons. Qed.
+
+Lemma lexHash_ok l d e g : Inv l d e g -> Pre SHash l -> StepOK SHash l (lexHash l).
+Proof.
+  intros HI HP. cbn [Pre] in HP. unfold lexHash.
+  destruct (absorb_emit HASH k_hash l d e g HI HP eq_refl ltac:(discriminate) ltac:(discriminate)) as ((d1 & I1) & P1 & S1 & St1 & In1).
+  apply mk_step; [split; [exact In1|cbn [length k_hash] in St1; lia]|intros; cbn [length k_hash] in St1; lia|].
+  eexists _, _, _. split; [exact I1|exact P1].
+Qed.
+
+Lemma lexRightBrace_ok l d e g : Inv l d e g -> Pre SRightBrace l -> StepOK SRightBrace l (lexRightBrace l).
+Proof.
+  intros HI HP. cbn [Pre] in HP. unfold lexRightBrace.
+  destruct (absorb_emit RBRACE [125%N] l d e g HI HP eq_refl ltac:(discriminate) ltac:(discriminate)) as ((d1 & I1) & P1 & S1 & St1 & In1).
+  cbn [length] in *. apply mk_step; [split; [exact In1|lia]|intros; lia|].
+  eexists _, _, _. split; [exact I1|exact P1].
+Qed.
+
+Lemma lexTaskKeyword_ok l d e g : Inv l d e g -> Pre STaskKeyword l -> StepOK STaskKeyword l (lexTaskKeyword l).
+Proof.
+  intros HI HP. cbn [Pre] in HP. unfold lexTaskKeyword.
+  destruct (absorb_emit_skip TASK k_task l d e g HI HP eq_refl ltac:(discriminate) ltac:(discriminate) ltac:(discriminate))
+    as (d1 & e1 & g1 & I1 & P1 & F1 & S1 & _).
+  apply mk_step; [exact F1|intros; exact S1|]. eexists _, _, _. split; [exact I1|exact P1].
+Qed.
+
+Lemma lexLeftParen_ok l d e g : Inv l d e g -> Pre SLeftParen l -> StepOK SLeftParen l (lexLeftParen l).
+Proof.
+  intros HI HP. cbn [Pre] in HP. unfold lexLeftParen.
+  destruct (absorb_emit_skip LPAREN [40%N] l d e g HI HP eq_refl ltac:(discriminate) ltac:(discriminate) ltac:(discriminate))
+    as (d1 & e1 & g1 & I1 & P1 & F1 & S1 & _).
+  apply mk_step; [exact F1|intros; exact S1|]. eexists _, _, _. split; [exact I1|exact P1].
+Qed.
+
+Lemma lexLeftBrace_ok l d e g : Inv l d e g -> Pre SLeftBrace l -> StepOK SLeftBrace l (lexLeftBrace l).
+Proof.
+  intros HI HP. cbn [Pre] in HP. unfold lexLeftBrace.
+  destruct (absorb_emit_skip LBRACE [123%N] l d e g HI HP eq_refl ltac:(discriminate) ltac:(discriminate) ltac:(discriminate))
+    as (d1 & e1 & g1 & I1 & P1 & F1 & S1 & _).
+  apply mk_step; [exact F1|intros; exact S1|]. eexists _, _, _. split; [exact I1|exact P1].
+Qed.
+
+Lemma unexpected_ok s l d e g : Inv l d e g -> StepOK s l (unexpectedToken l).
+Proof.
+  intros HI. unfold unexpectedToken. destruct (err_final EUnexpected l d e g HI) as [F Fr].
+  apply mk_step; [exact Fr|intros _ H; congruence|exact F].
+Qed.
+
+Lemma lexStart_ok l d e g : Inv l d e g -> Pre SStart l -> StepOK SStart l (lexStart l).
+Proof.
+  intros HI HP. cbn [Pre] in HP. unfold lexStart.
+  destruct (skipWhitespace_ok l d e g HI HP) as ((d1 & g1 & I1) & P1 & O1 & F1 & _).
+  set (l1 := skipWhitespace l) in *.
+  destruct (has_prefix k_hash (suf l1)) eqn:H1.
+  { apply mk_step; [exact F1|discriminate|]. eexists _, _, _. split; [exact I1|exact H1]. }
+  destruct (atTaskKeyword l1) eqn:H2.
+  { apply mk_step; [exact F1|discriminate|]. eexists _, _, _. split; [exact I1|].
+    unfold atTaskKeyword in H2. apply andb_true_iff in H2. exact (proj1 H2). }
+  rewrite (peek_ok l1 _ _ _ I1). set (w := snd (decode (suf l1))). set (r := fst (decode (suf l1))).
+  pose proof (with_width_inv l1 w _ _ _ I1) as I2.
+  assert (F2 : frame l (with_width l1 w)) by (eapply frame_trans; [exact F1|apply with_width_frame]).
+  destruct (is_ident r) eqn:RI.
+  { apply mk_step; [exact F2|discriminate|]. eexists _, _, _. split; [exact I2|]. right. exact RI. }
+  destruct (atEOF (with_width l1 w)) eqn:EOFc.
+  - unfold atEOF in EOFc. rewrite ww_suf in EOFc. destruct (suf l1) eqn:S1; [|discriminate].
+    assert (Pw : pre (with_width l1 w) = [] /\ suf (with_width l1 w) = []) by (rewrite ww_pre, ww_suf; auto).
+    pose proof (emit_inv EOF _ _ _ _ I2 ltac:(discriminate) (fun _ => Pw)) as I3.
+    apply mk_step; [eapply frame_trans; [exact F2|apply emit_frame]|discriminate|].
+    split; [destruct I3; assumption|]. eexists _, _. split; [reflexivity|]. right. split; [reflexivity|].
+    destruct I3 as [_ _ _ _ T _ _ _]. eexists. exact T.
+  - apply mk_step; [exact F2|discriminate|]. eexists _, _, _. split; [exact I2|exact I].
+Qed.
+
+Lemma lexCommentLoop_ok fuel : forall l d e g, Inv l d e g -> length (suf l) < fuel ->
+  StepOK SComment l (lexCommentLoop fuel l).
+Proof.
+  induction fuel as [|fuel IH]; intros l d e g HI Hf; [lia|].
+  cbn [lexCommentLoop]. rewrite (atEOL_ok l _ _ _ HI).
+  set (w := snd (decode (suf l))). pose proof (with_width_inv l w _ _ _ HI) as I1.
+  destruct (((fst (decode (suf l)) =? 10)%N || has_prefix crlf (suf l)) || atEOF (with_width l w)) eqn:C.
+  - pose proof (emit_inv COMMENT _ _ _ _ I1 ltac:(discriminate) ltac:(discriminate)) as I2.
+    apply mk_step; [eapply frame_trans; [apply with_width_frame|apply emit_frame]|discriminate|].
+    eexists _, _, _. split; [exact I2|reflexivity].
+  - apply orb_false_iff in C. destruct C as [_ C]. unfold atEOF in C. rewrite ww_suf in C.
+    destruct (next_backup (with_width l w) _ _ _ I1) as (I2 & _ & _ & _ & _ & _ & _ & _ & St2 & In2 & (bs & Hs & _ & Hl)).
+    rewrite ww_suf in Hs, Hl.
+    destruct (next (with_width l w)) as [r l2] eqn:En. cbn [snd] in *.
+    assert (W : snd (decode (suf l)) > 0) by (apply decode_width_pos; intros E0; rewrite E0 in C; discriminate).
+    assert (Hlen : length (suf l2) < fuel).
+    { assert (length (suf l) = length bs + length (suf l2)) by (rewrite Hs, app_length; reflexivity). lia. }
+    pose proof (IH l2 d e g I2 Hlen) as R. destruct (lexCommentLoop fuel l2) as [s' l']. destruct R as [[[Fi Fs] G] _]. cbn [fst snd] in *.
+    apply mk_step; [split; [rewrite Fi, In2; reflexivity|rewrite ww_start in St2; lia]|discriminate|exact G].
+Qed.
+
+Lemma lexComment_ok l d e g : Inv l d e g -> Pre SComment l -> StepOK SComment l (lexComment l).
+Proof. intros HI _. unfold lexComment. eapply lexCommentLoop_ok; eauto. Qed.
+
+(* ---------- more helpers ---------- *)
+Lemma emit_skip t l d e g : Inv l d e g -> t <> ERROR -> t <> EOF ->
+  let l' := skipWhitespace (emit t l) in
+  exists d' e' g', Inv l' d' e' g' /\ pre l' = [] /\ frame l l' /\ start l + length (pre l) <= start l' /\
+                   is_space (fst (decode (suf l'))) = false.
+Proof.
+  intros HI Ht1 Ht2 l'. pose proof (emit_inv t l d e g HI Ht1 (fun E => match Ht2 E with end)) as I1.
+  pose proof (emit_frame t l) as [Fe Es].
+  destruct (skipWhitespace_ok _ _ _ _ I1 eq_refl) as ((d2 & g2 & I2) & P2 & O2 & Fs & Sp).
+  exists d2, (pos l), g2. subst l'. split; [exact I2|]. split; [exact P2|].
+  split; [eapply frame_trans; eauto|]. split; [destruct Fs as [_ Fs]; lia|exact Sp].
+Qed.
+
+Lemma identLoop_ok fuel : forall l d e g, Inv l d e g -> length (suf l) < fuel ->
+  let l' := identLoop fuel l in
+  Inv l' d e g /\ out l' = out l /\ start l' = start l /\ inp l' = inp l /\ length (pre l) <= length (pre l') /\
+  (is_ident (fst (decode (suf l))) = true -> length (pre l) < length (pre l')).
+Proof.
+  induction fuel as [|fuel IH]; intros l d e g HI Hf; [lia|]. cbn [identLoop].
+  destruct (next_backup l d e g HI) as (I1 & IB & PB & SB & OB & FB & StB & O1 & St1 & In1 & (bs & Hs & Hp & Hl)).
+  pose proof (next_fst l) as Er. destruct (next l) as [r l1] eqn:En. cbn [fst snd] in *.
+  destruct (is_ident r) eqn:RI.
+  - assert (W : snd (decode (suf l)) > 0) by (apply ident_width; rewrite <- Er; exact RI).
+    assert (Hlen : length (suf l1) < fuel).
+    { assert (length (suf l) = length bs + length (suf l1)) by (rewrite Hs, app_length; reflexivity). lia. }
+    destruct (IH l1 d e g I1 Hlen) as (A & B & C & Dd & E1 & _).
+    assert (length (pre l1) = length bs + length (pre l)) by (rewrite Hp, app_length, rev_length; reflexivity).
+    split; [exact A|]. split; [congruence|]. split; [congruence|]. split; [congruence|]. split; [lia|]. intros _. lia.
+  - rewrite <- Er. rewrite RI. destruct FB as [Fi _].
+    split; [exact IB|]. split; [exact OB|]. split; [exact StB|]. split; [exact Fi|]. split; [rewrite PB; lia|]. discriminate.
+Qed.
+
+(* ascii whitespace bytes *)
+Definition asp (b : N) : Prop := (b < 128)%N /\ is_space b = true.
+
+Lemma next_ascii l b s : suf l = b :: s -> (b < 128)%N ->
+  next l = (b, {| inp := inp l; pre := b :: pre l; suf := s; start := start l;
+                  line := if (b =? 10)%N then S (line l) else line l; sline := sline l; width := 1; fl := fl l; out := out l |}).
+Proof.
+  intros Hs Hb. unfold next. rewrite Hs. unfold decode. assert ((b <? 128)%N = true) as -> by lia. cbn [fwd]. reflexivity.
+Qed.
+
+Lemma skipWS_len_le fuel : forall l, length (suf (skipWS fuel l)) <= length (suf l).
+Proof.
+  induction fuel as [|fuel IH]; intros l; cbn [skipWS]; [cbn; lia|].
+  destruct (next_spec l) as (bs & N). destruct N as [Ndec Nsuf Npre Nlen Nnl Nhi Nline Ninp Nstart Nsline Nfl Nout].
+  destruct (next l) as [r l1]. cbn [fst snd] in *.
+  assert (L : length (suf l) = length bs + length (suf l1)) by (rewrite Nsuf, app_length; reflexivity).
+  destruct (is_space r).
+  - specialize (IH l1). lia.
+  - cbn [discard suf]. rewrite (backup_spec l1 bs (pre l) Npre Nlen Nhi). cbn [suf]. rewrite app_length. lia.
+Qed.
+
+(* leading ascii whitespace is consumed entirely *)
+Lemma skipWS_len_sp sp : Forall asp sp -> forall fuel l rest, suf l = sp ++ rest -> length (suf l) < fuel ->
+  length (suf (skipWS fuel l)) <= length rest.
+Proof.
+  induction 1 as [|b sp [Hb Hs] _ IH]; intros fuel l rest Hsuf Hf.
+  - cbn [app] in Hsuf. rewrite <- Hsuf. apply skipWS_len_le.
+  - destruct fuel as [|fuel]; [lia|]. cbn [skipWS]. cbn [app] in Hsuf. rewrite (next_ascii l b _ Hsuf Hb). rewrite Hs.
+    apply IH; [reflexivity|]. cbn [suf]. rewrite Hsuf in Hf. cbn [length] in Hf. lia.
+Qed.
+
+(* ... and nothing after it *)
+Lemma skipWS_exact sp : Forall asp sp -> forall fuel l rest, suf l = sp ++ rest -> length (suf l) < fuel ->
+  is_space (fst (decode rest)) = false -> suf (skipWS fuel l) = rest.
+Proof.
+  induction 1 as [|b sp [Hb Hs] _ IH]; intros fuel l rest Hsuf Hf Hr.
+  - cbn [app] in Hsuf. destruct fuel as [|fuel]; [lia|]. cbn [skipWS].
+    destruct (next_spec l) as (bs & N). destruct N as [Ndec Nsuf Npre Nlen Nnl Nhi Nline Ninp Nstart Nsline Nfl Nout].
+    destruct (next l) as [r l1]. cbn [fst snd] in *.
+    assert (r = fst (decode rest)) by (rewrite <- Hsuf, Ndec; reflexivity). subst r. rewrite Hr.
+    cbn [discard suf]. rewrite (backup_spec l1 bs (pre l) Npre Nlen Nhi). cbn [suf]. rewrite <- Nsuf. exact Hsuf.
+  - destruct fuel as [|fuel]; [lia|]. cbn [skipWS]. cbn [app] in Hsuf. rewrite (next_ascii l b _ Hsuf Hb). rewrite Hs.
+    apply IH; [reflexivity| |exact Hr]. cbn [suf]. rewrite Hsuf in Hf. cbn [length] in Hf. lia.
+Qed.
+
+(* moving trailing spaces / carriage returns of the pending text back to the input *)
+Lemma unconsume_inv l d e g b p : Inv l d e g -> pre l = b :: p -> b <> 10%N ->
+  Inv {| inp := inp l; pre := p; suf := b :: suf l; start := start l; line := line l; sline := sline l;
+         width := width l; fl := fl l; out := out l |} d e g.
+Proof.
+  intros [Hi Hs Hsl Hl Ht Hg Heg Hf] Hp Hb. constructor; cbn [inp pre suf start line sline width fl out]; auto.
+  - rewrite Hi, Hp. cbn [rev]. rewrite <- !app_assoc. reflexivity.
+  - rewrite Hl, Hp, nl_cons. assert ((10 =? b)%N = false) as -> by (apply N.eqb_neq; congruence). lia.
+Qed.
+
+Lemma strip_cr_spec p : forall s, exists k, strip_cr p s = (skipn k p, repeat 13%N k ++ s) /\ k <= length p /\
+  firstn k p = repeat 13%N k.
+Proof.
+  induction p as [|b p IH]; intros s; [exists 0; cbn; auto|]. cbn [strip_cr].
+  destruct (N.eq_dec b 13) as [->|Hb].
+  - destruct (IH (13%N :: s)) as (k & E & Hk & Hf). exists (S k). cbn [skipn length firstn repeat]. rewrite E. split; [|split; [lia|f_equal; exact Hf]].
+    f_equal. clear. induction k as [|k IHk]; cbn [repeat app]; [reflexivity|]. f_equal. exact IHk.
+  - exists 0. cbn [skipn repeat app firstn]. split; [|split; [lia|reflexivity]].
+    destruct b as [|pb]; [reflexivity|]. destruct pb as [pb|pb|]; try reflexivity; destruct pb as [pb|pb|]; try reflexivity;
+    destruct pb as [pb|pb|]; try reflexivity; destruct pb as [pb|pb|]; try reflexivity. congruence.
+Qed.
+
+Lemma drop_cr_ok l d e g : Inv l d e g ->
+  Inv (drop_cr l) d e g /\ out (drop_cr l) = out l /\ start (drop_cr l) = start l /\ inp (drop_cr l) = inp l /\
+  exists k, suf (drop_cr l) = repeat 13%N k ++ suf l /\ length (pre (drop_cr l)) + k = length (pre l).
+Proof.
+  intros HI. unfold drop_cr.
+  assert (G : forall p s (l0 : lx), pre l0 = p -> suf l0 = s -> Inv l0 d e g ->
+     let '(p', s') := strip_cr p s in
+     Inv {| inp := inp l0; pre := p'; suf := s'; start := start l0; line := line l0; sline := sline l0; width := width l0; fl := fl l0; out := out l0 |} d e g /\
+     exists k, s' = repeat 13%N k ++ s /\ length p' + k = length p).
+  { induction p as [|b p IH]; intros s l0 Hp Hs HI0; cbn [strip_cr].
+    - split; [|exists 0; cbn; auto]. destruct l0; cbn in *; subst; exact HI0.
+    - destruct (N.eq_dec b 13) as [->|Hb].
+      + pose proof (unconsume_inv l0 d e g 13%N p HI0 Hp ltac:(discriminate)) as I1.
+        specialize (IH (13%N :: s) {| inp := inp l0; pre := p; suf := 13%N :: suf l0; start := start l0; line := line l0; sline := sline l0;
+                                     width := width l0; fl := fl l0; out := out l0 |} eq_refl ltac:(cbn; rewrite Hs; reflexivity) I1).
+        cbn [inp start line sline width fl out] in IH.
+        destruct (strip_cr p (13%N :: s)) as [p' s']. destruct IH as [A (k & B & C)]. split; [exact A|].
+        exists (S k). split; [|cbn [length]; lia]. rewrite B. clear. induction k as [|k IHk]; cbn [repeat app]; [reflexivity|]. f_equal. exact IHk.
+      + assert (E : strip_cr (b :: p) s = (b :: p, s)).
+        { cbn [strip_cr]. destruct b as [|pb]; [reflexivity|]. destruct pb as [pb|pb|]; try reflexivity; destruct pb as [pb|pb|]; try reflexivity;
+          destruct pb as [pb|pb|]; try reflexivity; destruct pb as [pb|pb|]; try reflexivity. congruence. }
+        cbn [strip_cr] in E. rewrite E. split; [|exists 0; cbn; auto]. destruct l0; cbn in *; subst; exact HI0. }
+  specialize (G (pre l) (suf l) l eq_refl eq_refl HI). destruct (strip_cr (pre l) (suf l)) as [p' s'].
+  destruct G as [A (k & B & C)]. cbn [out start inp suf pre]. split; [exact A|]. repeat split; try reflexivity. exists k. auto.
+Qed.
+
+Lemma grew (bs p : bytes) : length bs > 0 -> rev bs ++ p <> [].
+Proof. intros H E. apply (f_equal (@length N)) in E. rewrite app_length, rev_length in E. cbn in E. lia. Qed.
+
+(* take the next rune of a state satisfying the invariant: everything the state functions need to know *)
+Lemma take_next l d e g : Inv l d e g ->
+  exists bs, let r := fst (next l) in let l2 := snd (next l) in
+  r = fst (decode (suf l)) /\ Inv l2 d e g /\ Inv (backup l2) d e g /\
+  pre (backup l2) = pre l /\ suf (backup l2) = suf l /\ start (backup l2) = start l /\ inp (backup l2) = inp l /\
+  start l2 = start l /\ inp l2 = inp l /\ suf l = bs ++ suf l2 /\ pre l2 = rev bs ++ pre l /\ length bs = snd (decode (suf l)).
+Proof.
+  intros HI. destruct (next_backup l d e g HI) as (I1 & IB & PB & SB & OB & [Fi _] & StB & O1 & St1 & In1 & (bs & Hs & Hp & Hl)).
+  exists bs. cbn zeta. rewrite next_fst.
+  split; [reflexivity|]. split; [exact I1|]. split; [exact IB|]. split; [exact PB|]. split; [exact SB|]. split; [exact StB|].
+  split; [exact Fi|]. split; [exact St1|]. split; [exact In1|]. split; [exact Hs|]. split; [exact Hp|exact Hl].
+Qed.
+
+Ltac take_next_tac I l r l2 :=
+  let bs := fresh "bs" in let Er := fresh "Er" in let In2 := fresh "In2" in let IB := fresh "IB" in
+  let PB := fresh "PB" in let SB := fresh "SB" in let StB := fresh "StB" in let InB := fresh "InB" in
+  let St2 := fresh "St2" in let Ii2 := fresh "Ii2" in let Hs := fresh "Hs" in let Hp := fresh "Hp" in let Hl := fresh "Hl" in
+  destruct (take_next l _ _ _ I) as (bs & Er & In2 & IB & PB & SB & StB & InB & St2 & Ii2 & Hs & Hp & Hl);
+  destruct (next l) as [r l2]; cbn [fst snd] in *.
+
+Lemma lexArgs_ok l d e g : Inv l d e g -> Pre SArgs l -> StepOK SArgs l (lexArgs l).
+Proof.
+  intros HI HP. cbn [Pre] in HP. unfold lexArgs.
+  destruct (skipWhitespace_ok l d e g HI HP) as ((d1 & g1 & I1) & P1 & O1 & F1 & _).
+  set (l1 := skipWhitespace l) in *.
+  take_next_tac I1 l1 r l2.
+  assert (FB : frame l (backup l2)) by (destruct F1 as [A B]; split; [congruence|lia]).
+  assert (F2 : frame l l2) by (destruct F1 as [A B]; split; [congruence|lia]).
+  destruct (r =? 41)%N eqn:E1.
+  { apply N.eqb_eq in E1. apply mk_step; [exact FB|discriminate|]. eexists _, _, _. split; [exact IB|].
+    cbn [Pre]. rewrite SB. apply prefix_of_rune; [congruence|lia]. }
+  destruct (r =? 34)%N eqn:E2.
+  { apply N.eqb_eq in E2. apply mk_step; [exact F2|discriminate|]. eexists _, _, _. split; [exact In2|].
+    cbn [Pre]. rewrite Hp. apply grew. destruct (decode_ascii (suf l1) 34%N ltac:(congruence) ltac:(lia)) as (t & _ & W). lia. }
+  destruct (is_ident r) eqn:E3.
+  { apply mk_step; [exact F2|discriminate|]. eexists _, _, _. split; [exact In2|].
+    cbn [Pre]. left. rewrite Hp. apply grew. rewrite Hl. apply ident_width. rewrite <- Er. exact E3. }
+  destruct (r =? 44)%N eqn:E4.
+  { apply N.eqb_eq in E4. apply mk_step; [exact FB|discriminate|]. eexists _, _, _. split; [exact IB|].
+    cbn [Pre]. rewrite SB. apply prefix_of_rune; [congruence|lia]. }
+  destruct (r =? 123)%N eqn:E5.
+  { apply N.eqb_eq in E5. apply mk_step; [exact FB|discriminate|]. eexists _, _, _. split; [exact IB|].
+    cbn [Pre]. rewrite SB. apply prefix_of_rune; [congruence|lia]. }
+  destruct (err_final EInvalidChar l2 _ _ _ In2) as [Fe Fr].
+  apply mk_step; [eapply frame_trans; [exact F2|exact Fr]|discriminate|exact Fe].
+Qed.
+
+(* the three-way dispatch shared by lexComma and lexDeclare: string, identifier, or something else *)
+Lemma lexComma_ok l d e g : Inv l d e g -> Pre SComma l -> StepOK SComma l (lexComma l).
+Proof.
+  intros HI HP. cbn [Pre] in HP. unfold lexComma.
+  destruct (absorb_emit_skip COMMA [44%N] l d e g HI HP eq_refl ltac:(discriminate) ltac:(discriminate) ltac:(discriminate))
+    as (d1 & e1 & g1 & I1 & P1 & F1 & S1 & _).
+  cbn [length] in *. set (l1 := skipWhitespace (emit COMMA (absorb 1 l))) in *.
+  take_next_tac I1 l1 r l2.
+  assert (FB : frame l (backup l2)) by (destruct F1 as [A B]; split; [congruence|lia]).
+  assert (F2 : frame l l2) by (destruct F1 as [A B]; split; [congruence|lia]).
+  destruct (r =? 34)%N eqn:E2.
+  { apply N.eqb_eq in E2. apply mk_step; [exact F2|intros; lia|]. eexists _, _, _. split; [exact In2|].
+    cbn [Pre]. rewrite Hp. apply grew. destruct (decode_ascii (suf l1) 34%N ltac:(congruence) ltac:(lia)) as (t & _ & W). lia. }
+  destruct (is_ident r) eqn:E3.
+  { apply mk_step; [exact F2|intros; lia|]. eexists _, _, _. split; [exact In2|].
+    cbn [Pre]. left. rewrite Hp. apply grew. rewrite Hl. apply ident_width. rewrite <- Er. exact E3. }
+  destruct (r =? 41)%N eqn:E1.
+  { apply N.eqb_eq in E1. apply mk_step; [exact FB|intros; lia|]. eexists _, _, _. split; [exact IB|].
+    cbn [Pre]. rewrite SB. apply prefix_of_rune; [congruence|lia]. }
+  apply mk_step; [exact FB|intros; lia|]. eexists _, _, _. split; [exact IB|exact I].
+Qed.
+
+Lemma lexDeclare_ok l d e g : Inv l d e g -> Pre SDeclare l -> StepOK SDeclare l (lexDeclare l).
+Proof.
+  intros HI [HP0 HP]. unfold lexDeclare.
+  (* the leading skipWhitespace finds ':' at once and leaves the text position alone *)
+  destruct (skipWhitespace_ok l d e g HI HP0) as ((d0 & g0 & I0) & P0 & O0 & F0 & _).
+  assert (S0 : suf (skipWhitespace l) = suf l).
+  { unfold skipWhitespace. apply (skipWS_exact [] ltac:(constructor)); [reflexivity|lia|].
+    destruct (suf l) as [|c t]; [discriminate|]. cbn in HP. apply andb_true_iff in HP. destruct HP as [HP _]. apply N.eqb_eq in HP. subst c. reflexivity. }
+  set (l0 := skipWhitespace l) in *.
+  assert (HP' : has_prefix k_declare (suf l0) = true) by (rewrite S0; exact HP).
+  destruct (absorb_emit_skip DECLARE k_declare l0 _ _ _ I0 HP' eq_refl ltac:(discriminate) ltac:(discriminate) ltac:(discriminate))
+    as (d1 & e1 & g1 & I1 & P1 & F1 & S1 & _).
+  cbn [length k_declare] in *. set (l1 := skipWhitespace (emit DECLARE (absorb 2 l0))) in *.
+  take_next_tac I1 l1 r l2.
+  assert (F01 : frame l l1) by (eapply frame_trans; eauto).
+  assert (Sl : start l < start l1) by (destruct F0; lia).
+  assert (FB : frame l (backup l2)) by (destruct F01 as [A B]; split; [congruence|lia]).
+  assert (F2 : frame l l2) by (destruct F01 as [A B]; split; [congruence|lia]).
+  destruct (r =? 34)%N eqn:E2.
+  { apply N.eqb_eq in E2. apply mk_step; [exact F2|intros; lia|]. eexists _, _, _. split; [exact In2|].
+    cbn [Pre]. rewrite Hp. apply grew. destruct (decode_ascii (suf l1) 34%N ltac:(congruence) ltac:(lia)) as (t & _ & W). lia. }
+  destruct (is_ident r) eqn:E3.
+  { apply mk_step; [exact F2|intros; lia|]. eexists _, _, _. split; [exact In2|].
+    cbn [Pre]. left. rewrite Hp. apply grew. rewrite Hl. apply ident_width. rewrite <- Er. exact E3. }
+  apply mk_step; [exact FB|intros; lia|]. eexists _, _, _. split; [exact IB|exact I].
+Qed.
+
+Lemma lexOutputOperator_ok l d e g : Inv l d e g -> Pre SOutputOp l -> StepOK SOutputOp l (lexOutputOperator l).
+Proof.
+  intros HI HP. cbn [Pre] in HP. unfold lexOutputOperator.
+  destruct (absorb_emit_skip OUTPUT k_output l d e g HI HP eq_refl ltac:(discriminate) ltac:(discriminate) ltac:(discriminate))
+    as (d1 & e1 & g1 & I1 & P1 & F1 & S1 & _).
+  cbn [length k_output] in *. set (l1 := skipWhitespace (emit OUTPUT (absorb 2 l))) in *.
+  take_next_tac I1 l1 r l2.
+  assert (FB : frame l (backup l2)) by (destruct F1 as [A B]; split; [congruence|lia]).
+  assert (F2 : frame l l2) by (destruct F1 as [A B]; split; [congruence|lia]).
+  destruct (r =? 34)%N eqn:E2.
+  { apply N.eqb_eq in E2. apply mk_step; [exact F2|intros; lia|]. eexists _, _, _. split; [exact In2|].
+    cbn [Pre]. rewrite Hp. apply grew. destruct (decode_ascii (suf l1) 34%N ltac:(congruence) ltac:(lia)) as (t & _ & W). lia. }
+  destruct (r =? 40)%N eqn:E1.
+  { apply N.eqb_eq in E1. apply mk_step; [exact FB|intros; lia|]. eexists _, _, _. split; [exact IB|].
+    cbn [Pre]. rewrite SB. apply prefix_of_rune; [congruence|lia]. }
+  destruct (is_ident r) eqn:E3.
+  { apply mk_step; [exact F2|intros; lia|]. eexists _, _, _. split; [exact In2|].
+    cbn [Pre]. left. rewrite Hp. apply grew. rewrite Hl. apply ident_width. rewrite <- Er. exact E3. }
+  destruct (r =? 123)%N eqn:E5.
+  { destruct (err_final ENoOutput (backup l2) _ _ _ IB) as [Fe Fr].
+    apply mk_step; [eapply frame_trans; [exact FB|exact Fr]|intros _ H; congruence|exact Fe]. }
+  destruct (is_punct r) eqn:E6.
+  { destruct (err_final EPunctIdent l2 _ _ _ In2) as [Fe Fr].
+    apply mk_step; [eapply frame_trans; [exact F2|exact Fr]|intros _ H; congruence|exact Fe]. }
+  apply mk_step; [exact FB|intros; lia|]. eexists _, _, _. split; [exact IB|exact I].
+Qed.
+
+Lemma lexTaskBody_ok l d e g : Inv l d e g -> Pre STaskBody l -> StepOK STaskBody l (lexTaskBody l).
+Proof.
+  intros HI HP. cbn [Pre] in HP. unfold lexTaskBody.
+  destruct (atEOF l) eqn:EOFc.
+  { destruct (err_final EUnterminated l _ _ _ HI) as [Fe Fr]. apply mk_step; [exact Fr|discriminate|exact Fe]. }
+  destruct (skipWhitespace_ok l d e g HI HP) as ((d1 & g1 & I1) & P1 & O1 & F1 & _).
+  set (l1 := skipWhitespace l) in *.
+  take_next_tac I1 l1 r l2.
+  assert (FB : frame l (backup l2)) by (destruct F1 as [A B]; split; [congruence|lia]).
+  assert (F2 : frame l l2) by (destruct F1 as [A B]; split; [congruence|lia]).
+  destruct (r =? 125)%N eqn:E1.
+  { apply N.eqb_eq in E1. apply mk_step; [exact FB|discriminate|]. eexists _, _, _. split; [exact IB|].
+    cbn [Pre]. rewrite SB. apply prefix_of_rune; [congruence|lia]. }
+  destruct (is_letter r); (apply mk_step; [exact F2|discriminate|]; eexists _, _, _; split; [exact In2|exact I]).
+Qed.
+
+Lemma lexRightParen_ok l d e g : Inv l d e g -> Pre SRightParen l -> StepOK SRightParen l (lexRightParen l).
+Proof.
+  intros HI HP. cbn [Pre] in HP. unfold lexRightParen.
+  destruct (absorb_emit_skip RPAREN [41%N] l d e g HI HP eq_refl ltac:(discriminate) ltac:(discriminate) ltac:(discriminate))
+    as (d1 & e1 & g1 & I1 & P1 & F1 & S1 & _).
+  cbn [length] in *. set (l1 := skipWhitespace (emit RPAREN (absorb 1 l))) in *.
+  rewrite (peek_ok l1 _ _ _ I1). set (w := snd (decode (suf l1))). set (r := fst (decode (suf l1))).
+  pose proof (with_width_inv l1 w _ _ _ I1) as I2. set (l2 := with_width l1 w) in *.
+  assert (F2 : frame l l2) by (eapply frame_trans; [exact F1|apply with_width_frame]).
+  assert (S2 : start l < start l2) by (unfold l2; rewrite ww_start; exact S1).
+  destruct (r =? 123)%N eqn:E1.
+  { apply N.eqb_eq in E1. apply mk_step; [exact F2|intros; exact S2|]. eexists _, _, _. split; [exact I2|].
+    cbn [Pre]. unfold l2. rewrite ww_suf. apply prefix_of_rune; [exact E1|lia]. }
+  destruct (has_prefix k_output (suf l2)) eqn:E2.
+  { apply mk_step; [exact F2|intros; exact S2|]. eexists _, _, _. split; [exact I2|exact E2]. }
+  rewrite (atEOL_ok l2 _ _ _ I2). set (w2 := snd (decode (suf l2))).
+  pose proof (with_width_inv l2 w2 _ _ _ I2) as I3. set (l3 := with_width l2 w2) in *.
+  assert (F3 : frame l l3) by (eapply frame_trans; [exact F2|apply with_width_frame]).
+  assert (S3 : start l < start l3) by (unfold l3; rewrite ww_start; exact S2).
+  destruct ((((fst (decode (suf l2)) =? 10)%N || has_prefix crlf (suf l2)) || atEOF l3) || is_ident r) eqn:E3.
+  { apply mk_step; [exact F3|intros; exact S3|]. eexists _, _, _. split; [exact I3|]. cbn [Pre]. unfold l3, l2. rewrite !ww_pre. exact P1. }
+  destruct (r =? 35)%N eqn:E4.
+  { apply N.eqb_eq in E4. apply mk_step; [exact F3|intros; exact S3|]. eexists _, _, _. split; [exact I3|].
+    cbn [Pre]. unfold l3, l2. rewrite !ww_suf. apply prefix_of_rune; [exact E4|lia]. }
+  destruct ((r =? 34)%N || (r =? 40)%N).
+  { destruct (err_final EMissingArrow l3 _ _ _ I3) as [Fe Fr].
+    apply mk_step; [eapply frame_trans; [exact F3|exact Fr]|intros _ H; congruence|exact Fe]. }
+  apply mk_step; [exact F3|intros; exact S3|]. eexists _, _, _. split; [exact I3|exact I].
+Qed.
+
+Lemma lexTaskName_ok l d e g : Inv l d e g -> Pre STaskName l -> StepOK STaskName l (lexTaskName l).
+Proof.
+  intros HI HP. unfold lexTaskName.
+  destruct (identLoop_ok (S (length (suf l))) l d e g HI ltac:(lia)) as (I0 & O0 & St0 & In0 & _).
+  set (li := identLoop (S (length (suf l))) l) in *.
+  destruct (emit_skip IDENT li _ _ _ I0 ltac:(discriminate) ltac:(discriminate)) as (d1 & e1 & g1 & I1 & P1 & [Fi Fs] & S1 & _).
+  set (l1 := skipWhitespace (emit IDENT li)) in *.
+  rewrite (peek_ok l1 _ _ _ I1). set (w := snd (decode (suf l1))). set (r := fst (decode (suf l1))).
+  pose proof (with_width_inv l1 w _ _ _ I1) as I2.
+  assert (F2 : frame l (with_width l1 w)) by (split; [rewrite ww_inp; congruence|rewrite ww_start; lia]).
+  destruct (r =? 40)%N eqn:E1.
+  { apply N.eqb_eq in E1. apply mk_step; [exact F2|discriminate|]. eexists _, _, _. split; [exact I2|].
+    cbn [Pre]. rewrite ww_suf. apply prefix_of_rune; [exact E1|lia]. }
+  destruct (err_final ETaskParen _ _ _ _ I2) as [Fe Fr].
+  apply mk_step; [eapply frame_trans; [exact F2|exact Fr]|discriminate|exact Fe].
+Qed.
+
+Lemma lexIdent_ok l d e g : Inv l d e g -> Pre SIdent l -> StepOK SIdent l (lexIdent l).
+Proof.
+  intros HI HP. cbn [Pre] in HP. unfold lexIdent.
+  destruct (identLoop_ok (S (length (suf l))) l d e g HI ltac:(lia)) as (I0 & O0 & St0 & In0 & Le0 & Lt0).
+  set (li := identLoop (S (length (suf l))) l) in *.
+  assert (NE : length (pre li) > 0).
+  { destruct HP as [HP|HP]; [|specialize (Lt0 HP); lia].
+    assert (length (pre l) > 0) by (destruct (pre l) eqn:Ep; [congruence|cbn [length]; lia]). lia. }
+  destruct (emit_skip IDENT li _ _ _ I0 ltac:(discriminate) ltac:(discriminate)) as (d1 & e1 & g1 & I1 & P1 & [Fi Fs] & S1 & _).
+  set (l1 := skipWhitespace (emit IDENT li)) in *.
+  assert (Sl : start l < start l1) by lia.
+  rewrite (peek_ok l1 _ _ _ I1). set (w := snd (decode (suf l1))). set (r := fst (decode (suf l1))).
+  pose proof (with_width_inv l1 w _ _ _ I1) as I2. set (l2 := with_width l1 w) in *.
+  assert (F2 : frame l l2) by (split; [unfold l2; rewrite ww_inp; congruence|unfold l2; rewrite ww_start; lia]).
+  assert (S2 : start l < start l2) by (unfold l2; rewrite ww_start; exact Sl).
+  destruct (r =? 40)%N eqn:E1.
+  { apply N.eqb_eq in E1. apply mk_step; [exact F2|intros; exact S2|]. eexists _, _, _. split; [exact I2|].
+    cbn [Pre]. unfold l2. rewrite ww_suf. apply prefix_of_rune; [exact E1|lia]. }
+  destruct (has_prefix k_declare (suf l2)) eqn:E2.
+  { destruct (bytes_eqb (rev (pre li)) k_task).
+    - destruct (err_final ETaskKeyword l2 _ _ _ I2) as [Fe Fr].
+      apply mk_step; [eapply frame_trans; [exact F2|exact Fr]|intros _ H; congruence|exact Fe].
+    - apply mk_step; [exact F2|intros; exact S2|]. eexists _, _, _. split; [exact I2|]. cbn [Pre]. split; [unfold l2; rewrite ww_pre; exact P1|exact E2]. }
+  rewrite (atEOL_ok l2 _ _ _ I2). set (w2 := snd (decode (suf l2))).
+  pose proof (with_width_inv l2 w2 _ _ _ I2) as I3. set (l3 := with_width l2 w2) in *.
+  assert (F3 : frame l l3) by (eapply frame_trans; [exact F2|apply with_width_frame]).
+  assert (S3 : start l < start l3) by (unfold l3; rewrite ww_start; exact S2).
+  destruct (((fst (decode (suf l2)) =? 10)%N || has_prefix crlf (suf l2)) || atEOF l3) eqn:E3.
+  { apply mk_step; [exact F3|intros; exact S3|]. eexists _, _, _. split; [exact I3|]. cbn [Pre]. unfold l3, l2. rewrite !ww_pre. exact P1. }
+  rewrite (peek_ok l3 _ _ _ I3). set (w3 := snd (decode (suf l3))). set (r3 := fst (decode (suf l3))).
+  pose proof (with_width_inv l3 w3 _ _ _ I3) as I4. set (l4 := with_width l3 w3) in *.
+  assert (F4 : frame l l4) by (eapply frame_trans; [exact F3|apply with_width_frame]).
+  assert (S4 : start l < start l4) by (unfold l4; rewrite ww_start; exact S3).
+  assert (Suf4 : suf l4 = suf l3) by reflexivity.
+  destruct (r3 =? 41)%N eqn:E4.
+  { apply N.eqb_eq in E4. apply mk_step; [exact F4|intros; exact S4|]. eexists _, _, _. split; [exact I4|].
+    cbn [Pre]. rewrite Suf4. apply prefix_of_rune; [exact E4|lia]. }
+  destruct (r3 =? 44)%N eqn:E5.
+  { apply N.eqb_eq in E5. apply mk_step; [exact F4|intros; exact S4|]. eexists _, _, _. split; [exact I4|].
+    cbn [Pre]. rewrite Suf4. apply prefix_of_rune; [exact E5|lia]. }
+  destruct (r3 =? 123)%N eqn:E6.
+  { apply N.eqb_eq in E6. apply mk_step; [exact F4|intros; exact S4|]. eexists _, _, _. split; [exact I4|].
+    cbn [Pre]. rewrite Suf4. apply prefix_of_rune; [exact E6|lia]. }
+  destruct (is_punct r3).
+  { destruct (err_final EIdentPunct l4 _ _ _ I4) as [Fe Fr].
+    apply mk_step; [eapply frame_trans; [exact F4|exact Fr]|intros _ H; congruence|exact Fe]. }
+  destruct (is_ident r3).
+  { destruct (err_final EIdentIdent l4 _ _ _ I4) as [Fe Fr].
+    apply mk_step; [eapply frame_trans; [exact F4|exact Fr]|intros _ H; congruence|exact Fe]. }
+  apply mk_step; [exact F4|intros; exact S4|]. eexists _, _, _. split; [exact I4|exact I].
+Qed.
+
+Lemma decode_cr t : decode (13%N :: t) = (13%N, 1).
+Proof. reflexivity. Qed.
+
+Lemma lexStringLoop_ok fuel : forall l d e g, Inv l d e g -> pre l <> [] -> length (suf l) < fuel ->
+  StepOK SString l (lexStringLoop fuel l).
+Proof.
+  induction fuel as [|fuel IH]; intros l d e g HI HP Hf; [lia|]. cbn [lexStringLoop].
+  take_next_tac HI l r l1.
+  assert (F1 : frame l l1) by (split; [congruence|lia]).
+  assert (NE1 : pre l1 <> []).
+  { rewrite Hp. destruct (pre l) as [|x p]; [congruence|]. intros E0. apply (f_equal (@length N)) in E0. rewrite app_length in E0. cbn in E0. lia. }
+  destruct (r =? 34)%N eqn:E1.
+  - pose proof (emit_inv STRING l1 _ _ _ In2 ltac:(discriminate) ltac:(discriminate)) as I2.
+    pose proof (emit_frame STRING l1) as [Fe Es]. set (l2 := emit STRING l1) in *.
+    assert (S2 : start l < start l2) by (destruct (pre l1); [congruence|cbn [length] in Es; lia]).
+    assert (F2 : frame l l2) by (eapply frame_trans; eauto).
+    destruct (atEOF l2) eqn:EOFc.
+    { apply mk_step; [exact F2|intros; exact S2|]. eexists _, _, _. split; [exact I2|reflexivity]. }
+    rewrite (atEOL_ok l2 _ _ _ I2). set (w2 := snd (decode (suf l2))).
+    pose proof (with_width_inv l2 w2 _ _ _ I2) as I3.
+    assert (F3 : frame l (with_width l2 w2)) by (eapply frame_trans; [exact F2|apply with_width_frame]).
+    destruct ((fst (decode (suf l2)) =? 10)%N || has_prefix crlf (suf l2));
+      (apply mk_step; [exact F3|intros; rewrite ww_start; exact S2|]; eexists _, _, _; split; [exact I3|reflexivity]).
+  - destruct (atEOF l1) eqn:EOFc.
+    { destruct (err_final EStringQuote (backup l1) _ _ _ IB) as [Fe Fr].
+      apply mk_step; [eapply frame_trans; [|exact Fr]; split; [congruence|lia]|intros _ H; congruence|exact Fe]. }
+    rewrite (atEOL_ok l1 _ _ _ In2). set (w1 := snd (decode (suf l1))).
+    pose proof (with_width_inv l1 w1 _ _ _ In2) as I2. set (l2 := with_width l1 w1) in *.
+    assert (F2 : frame l l2) by (eapply frame_trans; [exact F1|apply with_width_frame]).
+    destruct ((fst (decode (suf l1)) =? 10)%N || has_prefix crlf (suf l1)) eqn:EOL.
+    + (* the quirk: this backup uses the width of the rune that was peeked (a line end, one byte) *)
+      assert (W1 : w1 = 1).
+      { apply orb_true_iff in EOL. destruct EOL as [E|E].
+        - apply N.eqb_eq in E. destruct (decode_ascii (suf l1) 10%N E ltac:(lia)) as (t & _ & W). exact W.
+        - unfold w1. destruct (suf l1) as [|c t]; [discriminate|]. cbn in E. apply andb_true_iff in E. destruct E as [E _].
+          apply N.eqb_eq in E. subst c. reflexivity. }
+      destruct (pre l1) as [|b p0] eqn:Ep; [congruence|].
+      destruct (backup_inv l2 _ _ _ [b] p0 I2) as (I3 & _); [unfold l2; rewrite ww_pre; exact Ep|unfold l2; cbn [with_width width length]; lia|unfold l2; cbn [with_width width]; lia|].
+      destruct (err_final EStringQuote (backup l2) _ _ _ I3) as [Fe Fr].
+      apply mk_step; [eapply frame_trans; [exact F2|]; eapply frame_trans; [apply (proj1 (backup_frame l2))|exact Fr]|intros _ H; congruence|exact Fe].
+    + assert (W : length bs > 0).
+      { rewrite Hl. apply decode_width_pos. intros E0. rewrite E0 in Hs. symmetry in Hs. apply app_eq_nil in Hs.
+        destruct Hs as [_ Hs']. unfold atEOF in EOFc. rewrite Hs' in EOFc. discriminate. }
+      assert (Hlen : length (suf l2) < fuel).
+      { unfold l2. rewrite ww_suf. assert (length (suf l) = length bs + length (suf l1)) by (rewrite Hs, app_length; reflexivity). lia. }
+      pose proof (IH l2 _ _ _ I2 ltac:(unfold l2; rewrite ww_pre; exact NE1) Hlen) as R.
+      destruct (lexStringLoop fuel l2) as [s' l']. destruct R as [[[Ri Rs] G] St]. cbn [fst snd] in *.
+      apply mk_step; [destruct F2 as [A B]; split; [congruence|lia]| |exact G].
+      intros C N1 N2. specialize (St C N1 N2). destruct F2. lia.
+Qed.
+
+Lemma lexString_ok l d e g : Inv l d e g -> Pre SString l -> StepOK SString l (lexString l).
+Proof. intros HI HP. unfold lexString. eapply lexStringLoop_ok; eauto. Qed.
+
+Lemma strip_space_ok l d e g : Inv l d e g ->
+  let l' := match pre l with 32%N :: _ => pos_dec l | _ => l end in
+  Inv l' d e g /\ out l' = out l /\ start l' = start l /\ inp l' = inp l /\
+  exists sp, Forall asp sp /\ suf l' = sp ++ suf l /\ length (pre l') + length sp = length (pre l).
+Proof.
+  intros HI. destruct (pre l) as [|b p] eqn:Ep.
+  - cbn zeta. split; [exact HI|]. split; [reflexivity|]. split; [reflexivity|]. split; [reflexivity|].
+    exists []. split; [constructor|]. split; [reflexivity|rewrite ?Ep; cbn [length]; lia].
+  - destruct (N.eq_dec b 32) as [->|Hb].
+    + cbn zeta. unfold pos_dec. rewrite Ep. split; [apply (unconsume_inv l d e g 32%N p HI Ep); discriminate|].
+      cbn [out start inp suf pre]. split; [reflexivity|]. split; [reflexivity|]. split; [reflexivity|].
+      exists [32%N]. split; [repeat constructor; lia|]. cbn. split; [reflexivity|lia].
+    + assert (E : match b :: p with 32%N :: _ => pos_dec l | _ => l end = l).
+      { destruct b as [|pb]; [reflexivity|]. destruct pb as [pb|pb|]; try reflexivity; destruct pb as [pb|pb|]; try reflexivity;
+        destruct pb as [pb|pb|]; try reflexivity; destruct pb as [pb|pb|]; try reflexivity; destruct pb as [pb|pb|]; try reflexivity;
+        destruct pb as [pb|pb|]; try reflexivity. congruence. }
+      cbn zeta. rewrite E. split; [exact HI|]. split; [reflexivity|]. split; [reflexivity|]. split; [reflexivity|].
+      exists []. split; [constructor|]. split; [reflexivity|rewrite ?Ep; cbn [length]; lia].
+Qed.
+
+Lemma asp_cr_run k : Forall asp (repeat 13%N k).
+Proof. induction k; cbn; constructor; auto. split; [lia|reflexivity]. Qed.
+
+Lemma lexTaskCommandsLoop_ok fuel : forall l d e g, Inv l d e g -> length (suf l) + 1 < fuel ->
+  StepOK STaskCommands l (lexTaskCommandsLoop fuel l).
+Proof.
+  induction fuel as [|fuel IH]; intros l d e g HI Hf; [lia|]. cbn [lexTaskCommandsLoop].
+  take_next_tac HI l r l1.
+  assert (F1 : frame l l1) by (split; [congruence|lia]).
+  assert (FB : frame l (backup l1)) by (split; [congruence|lia]).
+  assert (Ls : length (suf l) = length bs + length (suf l1)) by (rewrite Hs, app_length; reflexivity).
+  (* hand the rest of the loop over to the induction hypothesis *)
+  assert (Rec : forall l' d' e' g', Inv l' d' e' g' -> frame l l' -> length (suf l') < length (suf l) ->
+                StepOK STaskCommands l (lexTaskCommandsLoop fuel l')).
+  { intros l' d' e' g' I' [Fi Fs] Hlt. pose proof (IH l' _ _ _ I' ltac:(lia)) as R.
+    destruct (lexTaskCommandsLoop fuel l') as [s' l'']. destruct R as [[[Ri Rs] G] _]. cbn [fst snd] in *.
+    apply mk_step; [split; [congruence|lia]|discriminate|exact G]. }
+  destruct (r =? 10)%N eqn:E1.
+  - apply N.eqb_eq in E1. destruct (decode_ascii (suf l) 10%N ltac:(congruence) ltac:(lia)) as (rest & Hsuf & _).
+    destruct (drop_cr_ok (backup l1) _ _ _ IB) as (I3 & O3 & St3 & In3 & (k & Hk & _)).
+    set (l3 := drop_cr (backup l1)) in *.
+    destruct (emit_skip COMMAND l3 _ _ _ I3 ltac:(discriminate) ltac:(discriminate)) as (d4 & e4 & g4 & I4 & P4 & [Fi4 Fs4] & _ & _).
+    apply (Rec _ _ _ _ I4); [split; [congruence|lia]|].
+    unfold skipWhitespace. pose proof (emit_frame COMMAND l3) as _.
+    assert (Se : suf (emit COMMAND l3) = (repeat 13%N k ++ [10%N]) ++ rest).
+    { cbn [emit suf]. rewrite Hk, SB, Hsuf, <- app_assoc. reflexivity. }
+    pose proof (skipWS_len_sp (repeat 13%N k ++ [10%N]) ltac:(apply Forall_app; split; [apply asp_cr_run|repeat constructor; lia])
+                  (S (length (suf (emit COMMAND l3)))) (emit COMMAND l3) rest Se ltac:(lia)) as L.
+    rewrite Hsuf. cbn [length]. lia.
+  - destruct (has_prefix k_linterp (suf l1)) eqn:E2.
+    { destruct (absorb_inv 2 l1 _ _ _ k_linterp In2 E2 eq_refl eq_refl) as (I3 & _ & S3 & _).
+      apply (Rec _ _ _ _ I3); [eapply frame_trans; [exact F1|apply absorb_frame]|].
+      pose proof (has_prefix_split _ _ E2) as Sp. apply (f_equal (@length N)) in Sp. rewrite app_length in Sp. cbn [length k_linterp] in Sp. rewrite S3. lia. }
+    destruct (has_prefix k_rinterp (suf l1)) eqn:E3.
+    { destruct (absorb_inv 2 l1 _ _ _ k_rinterp In2 E3 eq_refl eq_refl) as (I3 & _ & S3 & _).
+      apply (Rec _ _ _ _ I3); [eapply frame_trans; [exact F1|apply absorb_frame]|].
+      pose proof (has_prefix_split _ _ E3) as Sp. apply (f_equal (@length N)) in Sp. rewrite app_length in Sp. cbn [length k_rinterp] in Sp. rewrite S3. lia. }
+    destruct (r =? 125)%N eqn:E4.
+    { apply N.eqb_eq in E4. destruct (decode_ascii (suf l) 125%N ltac:(congruence) ltac:(lia)) as (rest & Hsuf & _).
+      destruct (strip_space_ok (backup l1) _ _ _ IB) as (I2' & O2' & St2' & In2' & (sp1 & A1 & Hs1 & _)).
+      set (l2' := match pre (backup l1) with 32%N :: _ => pos_dec (backup l1) | _ => backup l1 end) in *.
+      destruct (drop_cr_ok l2' _ _ _ I2') as (I3 & O3 & St3 & In3 & (k & Hk & _)).
+      set (l3 := drop_cr l2') in *.
+      assert (F3 : frame l l3) by (split; [congruence|lia]).
+      assert (Suf3 : suf l3 = (repeat 13%N k ++ sp1) ++ 125%N :: rest) by (rewrite Hk, Hs1, SB, Hsuf, <- app_assoc; reflexivity).
+      assert (Asp : Forall asp (repeat 13%N k ++ sp1)) by (apply Forall_app; split; [apply asp_cr_run|exact A1]).
+      assert (G : forall l4 d4 e4 g4, Inv l4 d4 e4 g4 -> pre l4 = [] -> suf l4 = suf l3 -> frame l l4 ->
+                  StepOK STaskCommands l (SRightBrace, skipWhitespace l4)).
+      { intros l4 d4 e4 g4 I4 P4 S4 F4. destruct (skipWhitespace_ok l4 _ _ _ I4 P4) as ((d5 & g5 & I5) & _ & _ & F5 & _).
+        apply mk_step; [eapply frame_trans; eauto|discriminate|]. eexists _, _, _. split; [exact I5|]. cbn [Pre].
+        unfold skipWhitespace. rewrite (skipWS_exact _ Asp (S (length (suf l4))) l4 (125%N :: rest) ltac:(rewrite S4; exact Suf3) ltac:(lia) eq_refl).
+        apply has_prefix_cons. }
+      destruct (pre l3) as [|b3 p3] eqn:Ep3.
+      - apply (G l3 _ _ _ I3 Ep3 eq_refl F3).
+      - pose proof (emit_inv COMMAND l3 _ _ _ I3 ltac:(discriminate) ltac:(discriminate)) as I4.
+        apply (G (emit COMMAND l3) _ _ _ I4 eq_refl eq_refl). eapply frame_trans; [exact F3|apply emit_frame]. }
+    destruct (atEOF l1 || (r =? 35)%N).
+    { destruct (err_final EUnterminated l1 _ _ _ In2) as [Fe Fr].
+      apply mk_step; [eapply frame_trans; [exact F1|exact Fr]|discriminate|exact Fe]. }
+    destruct (r <=? 127)%N eqn:E5.
+    { destruct (decode_ascii (suf l) r ltac:(congruence) ltac:(lia)) as (rest & Hsuf & W). rewrite W in Hl.
+      apply (Rec _ _ _ _ In2 F1). lia. }
+    apply mk_step; [exact FB|discriminate|]. eexists _, _, _. split; [exact IB|exact I].
+Qed.
+
+Lemma lexTaskCommands_ok l d e g : Inv l d e g -> Pre STaskCommands l -> StepOK STaskCommands l (lexTaskCommands l).
+Proof. intros HI _. unfold lexTaskCommands. apply (lexTaskCommandsLoop_ok _ l d e g HI). lia. Qed.
+
+(* ---------- putting the states together ---------- *)
+Lemma step_ok s l d e g : Inv l d e g -> Pre s l -> s <> SDone -> StepOK s l (step s l).
+Proof.
+  intros HI HP HS. destruct s; cbn [step].
+  - apply (lexStart_ok l d e g HI HP).
+  - apply (lexHash_ok l d e g HI HP).
+  - apply (lexComment_ok l d e g HI HP).
+  - apply (lexTaskKeyword_ok l d e g HI HP).
+  - apply (lexLeftParen_ok l d e g HI HP).
+  - apply (lexRightParen_ok l d e g HI HP).
+  - apply (lexOutputOperator_ok l d e g HI HP).
+  - apply (lexLeftBrace_ok l d e g HI HP).
+  - apply (lexRightBrace_ok l d e g HI HP).
+  - apply (lexTaskBody_ok l d e g HI HP).
+  - apply (lexTaskCommands_ok l d e g HI HP).
+  - apply (lexTaskName_ok l d e g HI HP).
+  - apply (lexIdent_ok l d e g HI HP).
+  - apply (lexArgs_ok l d e g HI HP).
+  - apply (lexComma_ok l d e g HI HP).
+  - apply (lexDeclare_ok l d e g HI HP).
+  - apply (lexString_ok l d e g HI HP).
+  - apply (unexpected_ok SUnexpected l d e g HI).
+  - congruence.
+Qed.
+
+(* which state can follow which *)
+Definition succ (s : st) : list st :=
+  match s with
+  | SStart => [SHash; STaskKeyword; SIdent; SDone; SUnexpected]
+  | SHash => [SComment]
+  | SComment => [SStart; SDone]
+  | STaskKeyword => [STaskName]
+  | SLeftParen => [SArgs]
+  | SRightParen => [SLeftBrace; SOutputOp; SStart; SHash; SDone; SUnexpected]
+  | SOutputOp => [SString; SLeftParen; SIdent; SDone; SUnexpected]
+  | SLeftBrace => [STaskBody]
+  | SRightBrace => [SStart]
+  | STaskBody => [SDone; SRightBrace; STaskCommands; SUnexpected]
+  | STaskCommands => [SRightBrace; SDone; SUnexpected]
+  | STaskName => [SLeftParen; SDone]
+  | SIdent => [SLeftParen; SDeclare; SStart; SRightParen; SComma; SLeftBrace; SDone; SUnexpected]
+  | SArgs => [SRightParen; SString; SIdent; SComma; SLeftBrace; SDone]
+  | SComma => [SString; SIdent; SRightParen; SUnexpected]
+  | SDeclare => [SString; SIdent; SUnexpected]
+  | SString => [SStart; SArgs; SDone]
+  | SUnexpected => [SDone]
+  | SDone => [SDone]
+  end.
+
+Lemma st_eq_dec (a b : st) : {a = b} + {a <> b}.
+Proof. decide equality. Qed.
+
+Ltac in_list := cbn [In]; repeat (first [left; reflexivity | right]); fail.
+Ltac succ_cases := repeat (match goal with
+  | |- context [if ?b then _ else _] => destruct b
+  | |- context [let '(_, _) := ?p in _] => destruct p
+  | |- context [match ?x with (_, _) => _ end] => destruct x
+  end); cbn [fst succ In]; try tauto.
+
+Lemma lexCommentLoop_succ fuel : forall l, In (fst (lexCommentLoop fuel l)) (succ SComment).
+Proof. induction fuel as [|fuel IH]; intros l; cbn [lexCommentLoop]; [cbn; tauto|]. destruct (atEOL l) as [eol l1]. destruct (eol || atEOF l1); [cbn; tauto|]. destruct (next l1). apply IH. Qed.
+Lemma lexStringLoop_succ fuel : forall l, In (fst (lexStringLoop fuel l)) (succ SString).
+Proof.
+  induction fuel as [|fuel IH]; intros l; cbn [lexStringLoop]; [cbn; tauto|]. destruct (next l) as [r l1].
+  destruct (r =? 34)%N. { destruct (atEOF (emit STRING l1)); [cbn; tauto|]. destruct (atEOL (emit STRING l1)) as [eol l3]. destruct eol; cbn; tauto. }
+  destruct (atEOF l1); [cbn; tauto|]. destruct (atEOL l1) as [eol l2]. destruct eol; [cbn; tauto|apply IH].
+Qed.
+Lemma lexTaskCommandsLoop_succ fuel : forall l, In (fst (lexTaskCommandsLoop fuel l)) (succ STaskCommands).
+Proof.
+  induction fuel as [|fuel IH]; intros l; cbn [lexTaskCommandsLoop]; [cbn; tauto|]. destruct (next l) as [r l1].
+  destruct (r =? 10)%N; [apply IH|]. destruct (has_prefix k_linterp (suf l1)); [apply IH|]. destruct (has_prefix k_rinterp (suf l1)); [apply IH|].
+  destruct (r =? 125)%N; [cbn; tauto|]. destruct (atEOF l1 || (r =? 35)%N); [cbn; tauto|]. destruct (r <=? 127)%N; [apply IH|cbn; tauto].
+Qed.
+
+Lemma step_succ s l : In (fst (step s l)) (succ s).
+Proof.
+  destruct s; cbn [step].
+  - unfold lexStart. succ_cases.
+  - cbn; tauto.
+  - apply lexCommentLoop_succ.
+  - cbn; tauto.
+  - cbn; tauto.
+  - unfold lexRightParen. succ_cases.
+  - unfold lexOutputOperator. succ_cases.
+  - cbn; tauto.
+  - cbn; tauto.
+  - unfold lexTaskBody. succ_cases.
+  - apply lexTaskCommandsLoop_succ.
+  - unfold lexTaskName. succ_cases.
+  - unfold lexIdent. succ_cases.
+  - unfold lexArgs. succ_cases.
+  - unfold lexComma. succ_cases.
+  - unfold lexDeclare. succ_cases.
+  - apply lexStringLoop_succ.
+  - cbn; tauto.
+  - cbn; tauto.
+Qed.
+
+Definition rank (s : st) : nat :=
+  match s with
+  | SDone => 0
+  | SUnexpected => 1
+  | SArgs | STaskName | STaskCommands => 3
+  | STaskBody | SStart => 4
+  | SComment => 5
+  | _ => 2
+  end.
+Definition phi (s : st) (l : lx) : nat := 6 * (length (inp l) - start l) + rank s.
+
+Lemma step_decreases s l d e g : Inv l d e g -> Pre s l -> s <> SDone ->
+  fst (step s l) = SDone \/ phi (fst (step s l)) (snd (step s l)) < phi s l.
+Proof.
+  intros HI HP HS. pose proof (step_ok s l d e g HI HP HS) as [[[Fi Fs] G] St]. pose proof (step_succ s l) as Su.
+  destruct (step s l) as [s' l']. cbn [fst snd] in *.
+  destruct (st_eq_dec s' SDone) as [->|ND]; [left; reflexivity|right].
+  assert (B : start l' <= length (inp l')).
+  { destruct s'; try congruence; destruct G as (d' & e' & g' & I' & _); pose proof (Inv_start _ _ _ _ I'); lia. }
+  unfold phi. rewrite Fi in *.
+  destruct (consuming s) eqn:C.
+  - destruct (st_eq_dec s' SUnexpected) as [->|NU].
+    + destruct s; try discriminate; cbn [rank]; lia.
+    + specialize (St eq_refl ND NU). assert (rank s = 2) as -> by (destruct s; try discriminate; reflexivity).
+      assert (rank s' <= 5) by (destruct s'; cbn; lia). lia.
+  - assert (rank s' < rank s).
+    { destruct s; try discriminate; try congruence; cbn [succ In] in Su;
+        repeat (destruct Su as [<-|Su]; [try congruence; cbn [rank]; lia|]); contradiction. }
+    lia.
+Qed.
+
+Lemma Final_fl l : Final l -> fl l = FOk. Proof. intros [H _]. exact H. Qed.
+
+(* the driver never runs out of fuel and ends in a finished scan of the same input *)
+Lemma run_ok : forall fuel s l,
+  (s = SDone -> Final l) -> (s <> SDone -> exists d e g, Inv l d e g /\ Pre s l) -> phi s l < fuel ->
+  Final (run fuel s l) /\ inp (run fuel s l) = inp l.
+Proof.
+  induction fuel as [|fuel IH]; intros s l HD HN Hphi; [lia|].
+  destruct (st_eq_dec s SDone) as [->|ND].
+  - cbn [run is_done]. split; [apply HD; reflexivity|reflexivity].
+  - destruct (HN ND) as (d & e & g & HI & HP).
+    assert (R : run (S fuel) s l = let '(s', l') := step s l in if is_ok (fl l') then run fuel s' l' else l').
+    { destruct s; try reflexivity. congruence. }
+    rewrite R. pose proof (step_ok s l d e g HI HP ND) as [[[Fi Fs] G] _].
+    pose proof (step_decreases s l d e g HI HP ND) as Dec.
+    destruct (step s l) as [s' l']. cbn [fst snd] in *.
+    assert (Fl : fl l' = FOk).
+    { destruct (st_eq_dec s' SDone) as [->|N']; [apply Final_fl; exact G|].
+      destruct s'; try congruence; destruct G as (d' & e' & g' & [_ _ _ _ _ _ _ F'] & _); exact F'. }
+    rewrite Fl. cbn [is_ok].
+    destruct (st_eq_dec s' SDone) as [->|N'].
+    { assert (Rd : run fuel SDone l' = l') by (destruct fuel; reflexivity). rewrite Rd. split; [exact G|exact Fi]. }
+    destruct (IH s' l') as [A B].
+    + intros E. congruence.
+    + intros _. destruct s'; try congruence; exact G.
+    + destruct Dec as [E|Dec]; [congruence|]. lia.
+    + split; [exact A|congruence].
+Qed.
+
+Lemma init_inv s : Inv (init s) [] 0 0.
+Proof. constructor; cbn; auto; constructor. Qed.
+
+(* C16 on the model: for EVERY byte string the scan finishes without fault or fuel exhaustion, and what it emitted is:
+   tokens tiling the input (Tiled), ending in an ERROR token, or in an EOF token that Tiled places at |input| *)
+Theorem lex_tiles s :
+  fst (lex s) = FOk /\
+  exists front t, snd (lex s) = front ++ [t] /\
+    ((ty t = ERROR /\ exists e, Tiled s e front) \/ (ty t = EOF /\ exists e, Tiled s e (front ++ [t]))).
+Proof.
+  unfold lex. cbn [fst snd].
+  destruct (run_ok (6 * length s + 8) SStart (init s)) as [[Fl (t & o & Ho & H)] Hi].
+  - discriminate.
+  - intros _. exists [], 0, 0. split; [apply init_inv|reflexivity].
+  - unfold phi. cbn [init inp start rank]. lia.
+  - cbn [init inp] in Hi. split; [exact Fl|]. exists (rev o), t. rewrite Ho. cbn [rev]. split; [reflexivity|].
+    rewrite Hi in H. rewrite Ho in H. cbn [rev] in H. exact H.
+Qed.
+
+(* what Tiled says about each token and about neighbours *)
+Lemma Tiled_each s e toks : Tiled s e toks -> forall t, In t toks ->
+  ty t <> ERROR /\ val t = firstn (length (val t)) (skipn (tpos t) s) /\ tpos t + length (val t) <= length s /\
+  tline t = S (nl (firstn (tpos t) s)) /\ (ty t = EOF -> tpos t = length s) /\ tpos t + length (val t) <= e.
+Proof.
+  induction 1 as [|e toks g t T IH Sp Ne Pos Val Len Line Eof]; intros u Hu; [contradiction|].
+  apply in_app_or in Hu. destruct Hu as [Hu|[<-|[]]].
+  - destruct (IH u Hu) as (A & B & C & Dd & E & F). split; [exact A|]. split; [exact B|]. split; [exact C|]. split; [exact Dd|]. split; [exact E|lia].
+  - rewrite Pos. split; [exact Ne|]. split; [exact Val|]. split; [exact Len|]. split; [exact Line|]. split; [exact Eof|lia].
+Qed.
+
+Lemma Tiled_end s e toks : Tiled s e toks -> e <= length s.
+Proof. induction 1; lia. Qed.
+
+Lemma Tiled_last s e a t : Tiled s e (a ++ [t]) -> e = tpos t + length (val t).
+Proof.
+  intros T. remember (a ++ [t]) as l eqn:El. destruct T as [|e0 toks g t1 T Sp Ne Pos Val Len Line Eof]; [destruct a; discriminate|].
+  apply app_inj_tail in El. destruct El as [_ ->]. rewrite Pos. reflexivity.
+Qed.
+
+(* consecutive tokens: the next one starts at or after the end of the previous one, and what lies between is whitespace *)
+Lemma Tiled_gap s e toks : Tiled s e toks -> forall a t u b, toks = a ++ t :: u :: b ->
+  exists g, tpos u = tpos t + length (val t) + g /\ sp_run (skipn (tpos t + length (val t)) s) g.
+Proof.
+  induction 1 as [|e toks g t T IH Sp Ne Pos Val Len Line Eof]; intros a t0 u b E; [destruct a; discriminate|].
+  destruct b as [|x b] using rev_ind.
+  - replace (a ++ [t0; u]) with ((a ++ [t0]) ++ [u]) in E by (rewrite <- app_assoc; reflexivity).
+    apply app_inj_tail in E. destruct E as [E ->]. subst toks. exists g.
+    rewrite <- (Tiled_last _ _ _ _ T). split; [exact Pos|exact Sp].
+  - clear IHb. replace (a ++ t0 :: u :: b ++ [x]) with ((a ++ t0 :: u :: b) ++ [x]) in E by (rewrite <- app_assoc; reflexivity).
+    apply app_inj_tail in E. destruct E as [E _]. eapply IH; eauto.
+Qed.
